@@ -10,6 +10,7 @@ label type, one centre, not the element attribute).
 from __future__ import annotations
 
 import ast
+import re
 
 from ..core import GRAPH_CLASSES, SHORT, AnalysisError, Program, norm
 from ..effects import Walker
@@ -26,6 +27,11 @@ LEVEL_TEXT = (
 
 def has(prefix: str):
     return lambda facts, _p=prefix: any(f.startswith(_p) for f in facts)
+
+
+def has_re(pattern: str):
+    return lambda facts, _p=re.compile(pattern): any(
+        _p.match(f) for f in facts)
 
 
 def has_all(*fs):
@@ -64,10 +70,10 @@ GUARDS = {
     "delete_bond_stereo": [
         ("unknown descriptor", has("key:_bond_stereo:"))],
     "set_atom_stereo_change": [
-        ("several centres", has("eq:len(atoms):1")),
+        ("several centres", has_re(r"eq:len\(\w+\):1$")),
         ("foreign centre", has("atom:"))],
     "set_bond_stereo_change": [
-        ("several centres", has("eq:len(bonds):1")),
+        ("several centres", has_re(r"eq:len\(\w+\):1$")),
         ("foreign centre", has("bondkey:"))],
     "delete_atom_stereo_change": [
         ("unknown change", has("key:_atom_stereo_change:"))],
